@@ -1097,7 +1097,13 @@ func payloadOK(got, want, mode string) bool {
 		}
 		if strings.HasPrefix(p, "[") {
 			for _, m := range splitTop(strings.TrimSuffix(strings.TrimPrefix(p, "["), "]")) {
-				if m != "msg<nil>" && !strings.Contains(want, m) {
+				if m == "msg<nil>" || strings.Contains(want, m) {
+					continue
+				}
+				// a chunk of a message whose content is itself streamed (a tool that streams its answer): the chunk
+				// carries a part of the content, under the same role and tool-call count
+				i := strings.LastIndex(m, ",calls=")
+				if i < 0 || !strings.Contains(want, m[:i]) || !strings.Contains(want, m[i:]) {
 					return false
 				}
 			}
